@@ -32,7 +32,9 @@ ECs == { [k |-> "binL", op |-> op] : op \in BinOps } \cup { [k |-> "binR", op |-
        \cup { [k |-> "skipR", op |-> "&&"], [k |-> "skipR", op |-> "||"] }
        \* the left operand is an undefined identifier (tolerated: it counts as nil), the hole is the right operand
        \cup { [k |-> "unkL", op |-> op] : op \in {"==", "!=", "||"} }
-       \cup { [k |-> c, op |-> ""] : c \in {"not", "arr", "hashv", "idxI", "idxL", "argGo", "argP", "argUser", "argVar0", "argVar1", "cond", "elifcond", "iter"} }
+       \* the other operand is the bare word nil (the usual existence check x == nil / x != nil), on either side
+       \cup { [k |-> "nilR", op |-> op] : op \in {"==", "!="} } \cup { [k |-> "nilL", op |-> op] : op \in {"==", "!="} }
+       \cup { [k |-> c, op |-> ""] : c \in {"not", "arr", "arrfirst", "hashv", "hashfirst", "idxI", "idxL", "argGo", "argP", "argUser", "argVar0", "argVar1", "cond", "elifcond", "iter"} }
 
 \* the other operand is chosen so that the hole is evaluated (binL/binR) or skipped (skipR)
 WrapE(c, e) ==
@@ -40,8 +42,13 @@ WrapE(c, e) ==
     [] c.k = "binR"  -> Par(Bin(c.op, IF c.op = "||" THEN Bool(FALSE) ELSE IF c.op = "&&" THEN Bool(TRUE) ELSE IntL(1), e))
     [] c.k = "unkL"  -> Par(Bin(c.op, Id("zz"), e))
     [] c.k = "skipR" -> Par(Bin(c.op, IF c.op = "||" THEN Bool(TRUE) ELSE Bool(FALSE), e))
+    [] c.k = "nilR"  -> Par(Bin(c.op, e, Id("nil")))
+    [] c.k = "nilL"  -> Par(Bin(c.op, Id("nil"), e))
     [] c.k = "not"   -> Not(e)
     [] c.k = "arr"   -> Arr(<<IntL(1), e>>)
+    \* ... followed by elements that evaluate fine
+    [] c.k = "arrfirst" -> Arr(<<e, Str(<<"b">>), IntL(2)>>)
+    [] c.k = "hashfirst" -> Hash(<<"a", "b">>, <<e, IntL(1)>>)
     [] c.k = "hashv" -> Hash(<<"a", "b">>, <<IntL(1), e>>)
     [] c.k = "idxI"  -> Idx(Id("xs"), e)
     [] c.k = "idxL"  -> Idx(e, IntL(0))
@@ -118,8 +125,8 @@ EndsInCall(cs) == IF cs = <<>> THEN fault.n \in {"fail", "nofunc", "failchain", 
 IterOK(cs) == IF cs = <<>> THEN TRUE ELSE IF Head(cs).k = "not" THEN ~EndsInCall(cs) ELSE TRUE
 RECURSIVE CondOK(_)
 CondOK(cs) == IF cs = <<>> THEN TRUE
-              ELSE IF Head(cs).k \in {"arr", "hashv"} THEN FALSE
-              ELSE IF Head(cs).k \in {"binL", "binR", "skipR", "unkL", "not"} THEN CondOK(Tail(cs))
+              ELSE IF Head(cs).k \in {"arr", "hashv", "arrfirst", "hashfirst"} THEN FALSE
+              ELSE IF Head(cs).k \in {"binL", "binR", "skipR", "unkL", "not", "nilR", "nilL"} THEN CondOK(Tail(cs))
               ELSE TRUE
 AddEC == /\ sc = "none" /\ Len(ecs) < MaxNest
          /\ (IF ecs = <<>> THEN TRUE ELSE Head(ecs).k \notin BlockECs)
